@@ -726,7 +726,7 @@ func run(c *engine.Ctx) {
 		maxLen = 3
 	}
 	bs := bodies(maxLen)
-	const per = 6
+	const per = 2
 	for i := 0; i < len(bs); i += per {
 		hi := i + per
 		if hi > len(bs) {
